@@ -86,6 +86,7 @@ fn run_hist(args: &Args) {
         stepped: args.flags.iter().any(|f| f == "--stepped"),
         faults: args.flags.iter().any(|f| f == "--faults"),
         snapshots: args.flags.iter().any(|f| f == "--snapshots"),
+        foreign: args.flags.iter().any(|f| f == "--foreign"),
     };
     let mut todo: Vec<(String, usize, u64, Vec<String>)> = Vec::new();
     let mut files: Vec<PathBuf> = Vec::new();
@@ -114,7 +115,8 @@ fn run_hist(args: &Args) {
                 .find(|t| t.starts_with("group="))
                 .map(|g| format!(" {}", g))
                 .unwrap_or_default();
-            todo.push((format!("# case corpus:{}#{} sqlite={}{}", name, ci, mask, group), nreps, mask, lines));
+            let foreign = if lines.iter().any(|l| l.starts_with("W ")) { " foreign=1" } else { "" };
+            todo.push((format!("# case corpus:{}#{} sqlite={}{}{}", name, ci, mask, group, foreign), nreps, mask, lines));
         }
     }
     if args.replay.is_none() && args.flags.iter().any(|f| f == "--conflicts") {
@@ -130,7 +132,8 @@ fn run_hist(args: &Args) {
         for i in 0..args.cases {
             let mut crng = rng.fork();
             let (nreps, mask, lines) = hist::gen_case(&mut crng, &cfg);
-            todo.push((format!("# case {} seed={} sqlite={}", i, args.seed, mask), nreps, mask, lines));
+            let foreign = if lines.iter().any(|l| l.starts_with("W ")) { " foreign=1" } else { "" };
+            todo.push((format!("# case {} seed={} sqlite={}{}", i, args.seed, mask, foreign), nreps, mask, lines));
         }
     }
     let trace = std::env::var("TCH_TRACE").is_ok();
@@ -367,6 +370,13 @@ fn run_backend(args: &Args) {
                 let (nl, o) = run.exec("EPEND");
                 lines.push((nl, o, Vec::new()));
             } else {
+                if kind == backend::Kind::GitRemote && nh >= 2 && crng.below(2) == 0 {
+                    // one clone is restarted before anything was added: restarting publishes its first
+                    // commit (the meta file), so the other clones' first push meets a remote that moved
+                    // without gaining a version
+                    let (nl, o) = run.exec(&format!("REOPEN {}", crng.below(nh as u64)));
+                    lines.push((nl, o, Vec::new()));
+                }
                 for _ in 0..len {
                     let mut l = backend::gen_line(&mut run, &mut crng, nh, &mut nver);
                     if crash && (l.starts_with("AV") || l.starts_with("AS")) && crng.below(2) == 0 {
